@@ -172,6 +172,15 @@ func (mr *MigrationRunner) runMigration(ctx context.Context, migrationIndex uint
 		return fmt.Errorf("executing migration: %w", err)
 	}
 
+	if err != nil && intermediateState == nil {
+		// Cancelled without a resumable state: the migration did not complete, so it must not be
+		// marked as applied. Any existing state is cleared, as documented on Migration.
+		if err := DeleteIntermediateState(mr.database, migrationIndex); err != nil {
+			return fmt.Errorf("deleting intermediate state: %w", err)
+		}
+		return ctx.Err()
+	}
+
 	if intermediateState != nil {
 		// Migration produced intermediate state - save it for resumption
 		if err := WriteIntermediateState(mr.database, migrationIndex, intermediateState); err != nil {
